@@ -6,6 +6,7 @@ package main
 // elements as receivers.  Direct oracle: the four consequence laws + UTF-8 validity.
 
 import (
+	ppb "github.com/google/fhir/go/proto/google/fhir/proto/r4/core/resources/patient_go_proto"
 	"fmt"
 	"sort"
 	"strings"
@@ -34,12 +35,33 @@ func randStr(r *RNG, maxLen int) string {
 // string-like FHIR elements of every kind as receivers (values fixed by the element type: enum
 // codes cannot carry arbitrary text)
 func c14ElementReceivers(c *Ctx) {
-	res := mustResource(`{"resourceType":"Patient","id":"pat-1","meta":{"profile":["http://example.org/fhir/StructureDefinition/p"],"source":"urn:src:é"},"text":{"status":"generated","div":"<div xmlns=\"http://www.w3.org/1999/xhtml\">x</div>"},"gender":"female","name":[{"use":"official","family":"Ünal","given":["Zoë"]}],"telecom":[{"system":"phone","value":"555","use":"mobile"}],"address":[{"use":"home","type":"postal","city":"Zürich"}],"link":[{"other":{"reference":"Patient/2"},"type":"seealso"}],"communication":[{"language":{"coding":[{"system":"urn:ietf:bcp:47","code":"de-CH"}]}}],"photo":[{"contentType":"image/png","url":"http://example.org/p.png"}]}`)
+	res := mustResource(`{"resourceType":"Patient","id":"pat-1","meta":{"profile":["http://example.org/fhir/StructureDefinition/p"],"source":"urn:src:é"},"text":{"status":"generated","div":"<div xmlns=\"http://www.w3.org/1999/xhtml\">x</div>"},"gender":"female","name":[{"use":"official","family":"Ünal","given":["Zoë"]}],"telecom":[{"system":"phone","value":"555","use":"mobile"}],"address":[{"use":"home","type":"postal","city":"Zürich"}],"link":[{"other":{"reference":"Patient/2"},"type":"seealso"}],"communication":[{"language":{"coding":[{"system":"urn:ietf:bcp:47","code":"de-CH"}]}}],"photo":[{"contentType":"Image/X_Png+É","url":"http://example.org/p.png"}]}`)
 	paths := map[string]string{
 		"Patient.gender": "female", "Patient.name.use": "official", "Patient.telecom.system": "phone", "Patient.telecom.use": "mobile", "Patient.address.use": "home", "Patient.address.type": "postal",
 		"Patient.link.type": "seealso", "Patient.text.status": "generated", "Patient.id": "pat-1", "Patient.meta.profile": "http://example.org/fhir/StructureDefinition/p", "Patient.meta.source": "urn:src:é",
 		"Patient.name.family": "Ünal", "Patient.name.given": "Zoë", "Patient.address.city": "Zürich", "Patient.communication.language.coding.code": "de-CH", "Patient.communication.language.coding.system": "urn:ietf:bcp:47",
-		"Patient.photo.contentType": "image/png", "Patient.photo.url": "http://example.org/p.png", "Patient.telecom.value": "555",
+		"Patient.photo.contentType": "Image/X_Png+É", "Patient.photo.url": "http://example.org/p.png", "Patient.telecom.value": "555",
+	}
+	// string-like elements whose value is the empty string (a legal proto; the JSON form cannot carry it) are the empty
+	// string, not an error and not "no value"
+	{
+		empties := &ppb.Patient{Id: &dtpb.Id{Value: ""}, Language: &dtpb.Code{Value: ""}, ImplicitRules: &dtpb.Uri{Value: ""},
+			Name: []*dtpb.HumanName{{Family: &dtpb.String{Value: ""}, Text: &dtpb.String{Value: "t"}}}, Text: &dtpb.Narrative{Div: &dtpb.Xhtml{Value: ""}},
+			Meta: &dtpb.Meta{Profile: []*dtpb.Canonical{{Value: ""}}, Source: &dtpb.Uri{Value: ""}}, Photo: []*dtpb.Attachment{{Url: &dtpb.Url{Value: ""}, Title: &dtpb.String{Value: ""}}}}
+		for _, p := range []string{"Patient.id", "Patient.language", "Patient.implicitRules", "Patient.name.family", "Patient.meta.profile", "Patient.meta.source", "Patient.photo.url", "Patient.photo.title"} {
+			for src, want := range map[string]string{p + ".length()": "ok:[I:0]", p + ".toChars().count()": "ok:[I:0]", p + ".contains('')": "ok:[B:true]", p + ".startsWith('')": "ok:[B:true]", p + ".endsWith('')": "ok:[B:true]",
+				p + ".indexOf('')": "ok:[I:0]", p + ".upper() = ''": "ok:[B:true]", p + ".substring(0).empty()": "ok:[B:true]", p + " & 'x'": "ok:[S:x78]", p + ".replace('', 'y')": "ok:[S:x79]"} {
+				o := compileEval(src, []fhir.Resource{empties})
+				got := outTokens(o)
+				if o.Panicked {
+					got = "panic " + o.PanicMsg
+				} else if o.Err != nil {
+					got = "err " + o.Err.Error()
+				}
+				c.Observe("empty-valued element "+src, true)
+				c.Law(got == want, "C14/element-receiver", "string functions work on every string-like FHIR element (code, enum code, id, uri, canonical, url, markdown, string) as on its string value", src+" on an element whose value is ''", got+" vs "+want)
+			}
+		}
 	}
 	var keys []string
 	for k := range paths {
@@ -185,7 +207,7 @@ func runC14(c *Ctx) {
 		c.Emit("smap "+hs+" "+caseMap(strings.ToLower, s), outTokens(o), nt)
 		c.Law(o.Err == nil && (L == 0 || (len(o.Coll) == 1 && o.Coll[0] == system.String(strings.ToLower(s)))), "C14/upper-lower", "lower() maps every character to its lower-case form", fmt.Sprintf("%q.lower()", s), outTokens(o))
 		// substring
-		starts := []int64{-2, -1, 2147483647, -2147483648}
+		starts := []int64{-2, -1, 2147483647, -2147483648, -2147483647, 2147483646, -2147483646, -65536, 65536}
 		for k := 0; k <= L+2; k++ {
 			starts = append(starts, int64(k))
 		}
@@ -198,7 +220,15 @@ func runC14(c *Ctx) {
 				c.Law(o.Coll[0] == system.String(string(runes[st:])), "C14/substring-characters", "positions count characters", fmt.Sprintf("%q.substring(%d)", s, st), outTokens(o))
 			}
 			checkUTF8(o, fmt.Sprintf("%q.substring(%d)", s, st))
-			lens := []int64{-1, 2147483647, -2147483648}
+			// the same position written as a literal in the source (a negative literal is a sign applied to digits)
+			if (st < 0 || st > 60000) && st != -2147483648 {
+				lo := compileEval(fmt.Sprintf("%%s.substring(%d)", st), nil, envVar("s", r))
+				c.Law(outTokens(lo) == outTokens(o), "C14/literal-argument", "a position written as a literal means what the same number supplied as a value means", fmt.Sprintf("%q.substring(%d)", s, st), outTokens(lo)+" vs "+outTokens(o))
+				lo2 := compileEval(fmt.Sprintf("%%s.substring(0, %d)", st), nil, envVar("s", r))
+				o2 := eval("%s.substring(0, %a0)", r, system.Integer(int32(st)))
+				c.Law(outTokens(lo2) == outTokens(o2), "C14/literal-argument", "a length written as a literal means what the same number supplied as a value means", fmt.Sprintf("%q.substring(0, %d)", s, st), outTokens(lo2)+" vs "+outTokens(o2))
+			}
+			lens := []int64{-1, 2147483647, -2147483648, -2147483647, 2147483646}
 			for k := 0; k <= L+2; k++ {
 				lens = append(lens, int64(k))
 			}
